@@ -133,6 +133,34 @@ fn main() {
 			h.go(&sys, &Limits::deviation(if thorough { 1 } else { 0 }, if thorough { 900 } else { 640 }).wall_secs(600), true);
 			tally!(sys);
 		}
+		// (8) one parameter at a time in the middle range (the default and the small variants leave the
+		// lengths 6..250 of most parameters untouched) and a volatile stream on which every step has a
+		// new value: constant / ramp / zigzag / volatile base streams with at most one deviation
+		{
+			let mut cfgs = vec![];
+			for (key, val) in ind::json_map(&c.to_json().unwrap()) {
+				let texts: Vec<String> = if val.is_u64() {
+					["7", "33", "120", "251"].iter().map(|s| s.to_string()).collect()
+				} else if let Some(o) = val.as_object() {
+					let kind = o.keys().next().unwrap().clone();
+					let kind = if kind == "lin_reg" { "linreg".to_string() } else { kind };
+					["7", "33", "120"].iter().map(|n| format!("{kind}-{n}")).collect()
+				} else {
+					vec![]
+				};
+				for t in texts {
+					let mut x = c.boxed_clone();
+					if x.set(&key, t).is_ok() && x.validate() {
+						cfgs.push(x);
+					}
+				}
+			}
+			let mut all = indicator_configs_small3(name);
+			all.extend(cfgs);
+			let sys = IndSys::new(&format!("{name}/deviation/mid-range-parameters+volatile"), all, vec![ks[1]], vec![ks[1], ks[2]], oracle, true).with_zigzag().with_volatile();
+			h.go(&sys, &Limits::deviation(if thorough { 1 } else { 0 }, if thorough { 520 } else { 700 }).wall_secs(600), true);
+			tally!(sys);
+		}
 	}
 	if !missing.is_empty() {
 		h.run.machinery_error(format!("no reference model for: {missing:?}"));
